@@ -12,36 +12,49 @@ CVC5_TIMEOUT_MS = int(os.environ.get("PYVC_CVC5_TIMEOUT_MS", "20000"))
 CVC5 = "/usr/bin/cvc5"
 
 
+Z3CLI = "z3-new"
+_DEF = re.compile(r"\(define-fun\s+(\S+)\s+\(\)\s+(\([^()]*\)|\S+)\s+((?:.|\n)*?)\)\s*(?=\(define-fun|\)\s*$)")
+
+
 def _z3_worker(job):
+    """z3 through its command line front end: on these VCs the CLI's default pipeline (full preprocessing) decides in
+    well under a second what the incremental API solver leaves open"""
     idx, smt2, timeout_ms, want_model = job
-    import z3
     t0 = time.time()
+    with tempfile.NamedTemporaryFile("w", suffix=".smt2", delete=False) as f:
+        f.write(smt2)
+        if "(check-sat)" not in smt2:
+            f.write("\n(check-sat)\n")
+        path = f.name
     try:
-        s = z3.Solver()
-        s.set("timeout", timeout_ms)
-        s.set("random_seed", 7)
-        s.from_string(smt2)
-        r = s.check()
-        res = str(r)
+        args = [Z3CLI, "-T:%d" % max(1, timeout_ms // 1000)]
+        if want_model:
+            args.append("-model")
+        p = subprocess.run(args + [path], capture_output=True, text=True, timeout=timeout_ms / 1000.0 + 15)
+        out = p.stdout.strip()
+        first = out.splitlines()[0].strip() if out else "unknown"
         model = None
-        if r == z3.sat and want_model:
-            m = s.model()
+        if first == "sat" and want_model:
             model = {}
-            for d in m.decls():
-                try:
-                    model[d.name()] = str(m[d])
-                except Exception:
-                    pass
-        reason = s.reason_unknown() if r == z3.unknown else ""
-        return idx, res, time.time() - t0, model, reason
+            body = out[len("sat"):]
+            for m in _DEF.finditer(body):
+                model[m.group(1)] = " ".join(m.group(3).split())[:400]
+        if first not in ("sat", "unsat", "unknown"):
+            first = "unknown" if "timeout" in out else "error"
+        return idx, first, time.time() - t0, model, ("timeout" if first == "unknown" else (out[:200] if first == "error" else ""))
+    except subprocess.TimeoutExpired:
+        return idx, "unknown", time.time() - t0, None, "timeout"
     except Exception as e:     # noqa
         return idx, "error", time.time() - t0, None, repr(e)
+    finally:
+        os.unlink(path)
 
 
 def _cvc5_run(smt2, timeout_ms, models=False):
     txt = smt2
     # z3 prints (declare-fun x () (Seq Int)) etc., accepted by cvc5; drop z3-only options / commands
     txt = re.sub(r"\(set-info [^)]*\)\n?", "", txt)
+    txt = re.sub(r"\(\+ (\([^()]*(?:\([^()]*(?:\([^()]*\)[^()]*)*\)[^()]*)*\))\)", r"\1", txt)   # z3 prints unary (+ t)
     txt = "(set-logic ALL)\n" + txt
     if "(check-sat)" not in txt:
         txt += "\n(check-sat)\n"
@@ -89,7 +102,8 @@ def discharge(obligations, procs=None, z3_timeout_ms=None, cvc5_timeout_ms=None,
             trivial += 1
             continue
         texts[i] = ob.smt2()
-        jobs.append((i, texts[i], zt, True))
+        # vacuity canaries ask for a model of the path; with quantified axioms that is often `unknown`, which is tolerated
+        jobs.append((i, texts[i], min(zt, 5000) if ob.kind in ("canary", "vacuity") else zt, ob.kind not in ("canary", "vacuity")))
     if jobs:
         ctx = mp.get_context("fork")
         with ctx.Pool(min(procs, len(jobs))) as pool:
@@ -97,7 +111,8 @@ def discharge(obligations, procs=None, z3_timeout_ms=None, cvc5_timeout_ms=None,
                 ob = obligations[idx]
                 ob.result, ob.backend, ob.time, ob.model = res, "z3", t, model
                 ob.reason = reason
-    pending = [(i, texts[i], ct) for i in texts if obligations[i].result in ("unknown", "error") or both]
+    pending = [(i, texts[i], ct) for i in texts if obligations[i].kind not in ("canary", "vacuity")
+               and (obligations[i].result in ("unknown", "error") or both)]
     if pending and os.path.exists(CVC5):
         ctx = mp.get_context("fork")
         with ctx.Pool(min(procs, len(pending))) as pool:
@@ -112,4 +127,29 @@ def discharge(obligations, procs=None, z3_timeout_ms=None, cvc5_timeout_ms=None,
                     if res == "sat":
                         r2, _t2, mtxt = _cvc5_run(texts[idx], ct, models=True)
                         ob.model = {"cvc5_model": mtxt} if mtxt else None
+    # what both solvers leave open: retry without the quantified conjuncts of the path condition.  Dropping assumptions is
+    # sound for proofs (unsat stays unsat); a model of the relaxed query is only a *candidate* counterexample
+    # ("sat-relaxed"), which the check confirms natively before it reports anything.
+    from .engine import _has_quantifier
+    relaxed = []
+    for i in texts:
+        ob = obligations[i]
+        if ob.kind in ("canary", "vacuity") or ob.result in ("sat", "unsat", "disagree"):
+            continue
+        s = z3.Solver()
+        for c in ob.pc:
+            if not _has_quantifier(c):
+                s.add(c)
+        s.add(z3.Not(ob.goal))
+        relaxed.append((i, s.to_smt2(), zt, True))
+    if relaxed:
+        ctx = mp.get_context("fork")
+        with ctx.Pool(min(procs, len(relaxed))) as pool:
+            for idx, res, t, model, reason in pool.imap_unordered(_z3_worker, relaxed, chunksize=1):
+                ob = obligations[idx]
+                ob.time += t
+                if res == "unsat":
+                    ob.result, ob.backend = "unsat", "z3(quantifier-free part)"
+                elif res == "sat":
+                    ob.result, ob.backend, ob.model = "sat-relaxed", "z3(quantifier-free part)", model
     return obligations
